@@ -89,9 +89,31 @@ def fn_code_hash(fn: Callable, salt: str = None, environment: bytes = None) -> s
     assert callable(fn), "Must provide a function to hash"
     while hasattr(fn, "__wrapped__"):
         fn = fn.__wrapped__
+    def describe_default(value) -> str:
+        """Stable description of a default parameter value (not an address-bearing repr)"""
+        if callable(value):
+            return getattr(value, "__qualname__", type(value).__qualname__)
+        try:
+            return json.dumps(MementoCodec.encode_arg(value), sort_keys=True)
+        except (TypeError, ValueError):
+            return type(value).__qualname__
+
     if hasattr(fn, "__code__"):
         code = getattr(fn, "__code__")  # type: code
         result = hash_if_code_object(code)
+        # Default parameter values are not part of the code object but do change what the
+        # function computes. Functions without defaults keep the plain code hash.
+        defaults = getattr(fn, "__defaults__", None)
+        kwdefaults = getattr(fn, "__kwdefaults__", None)
+        if defaults or kwdefaults:
+            sha256 = hashlib.sha256()
+            sha256.update(result.encode("utf-8"))
+            described = [
+                [describe_default(v) for v in defaults or ()],
+                {k: describe_default(v) for k, v in (kwdefaults or {}).items()},
+            ]
+            sha256.update(json.dumps(described, sort_keys=True).encode("utf-8"))
+            result = sha256.hexdigest()[0:16]
         return result
     else:
         # If we can't get the code for the function, then return the name of the function
